@@ -194,17 +194,27 @@ def gen_case(prop, seed, profile=None, **over):
     tmin = w + k + 2
     tmax = max(tmin + 5, p["T"][1])
     lengths = []
-    for _ in range(nser):
-        if r.random() < 0.15:
+    for j in range(nser):
+        if joint and nser >= 2 and r.random() < p.get("short_series_p", 0.2):
+            # a series with fewer than W full windows (only the total has to feed the mixture model)
+            lengths.append(r.randint(w, max(w, 2 * w - 1)))
+        elif r.random() < 0.15:
             lengths.append(r.randint(tmin, tmin + 6))
         else:
             lengths.append(r.randint(tmin + 6, max(tmin + 7, tmax // nser)))
+    if sum(x - w + 1 for x in lengths) < k + 4:
+        lengths[0] += k + 4
     regimes = r.randint(1, 4)
     data = dict(seed=H(seed, prop, "data"), N=n, lengths=lengths, regimes=regimes,
                 sep=r.choice([0.0, 1.0, 3.0, 6.0]), min_seg=r.choice([3, 8, 15]))
     if r.random() < p["extreme_scale_p"]:
         lo, hi = p.get("scale_exp_range", (-6, 6))
         data["scale_exp"] = [r.uniform(lo, hi) for _ in range(n)]
+    if n > 1 and r.random() < p.get("mixed_units_p", 0.0):
+        # columns in very different units: one sensor 10^3..10^6 times the others
+        exps = [0.0] * n
+        exps[r.randrange(n)] = float(r.choice([3, 4, 5, 5, 6]))
+        data["scale_exp"] = exps
     if r.random() < p["knob_p"] and n > 1:
         data["const_sensor"] = r.randrange(n)
     if r.random() < p["knob_p"]:
